@@ -1384,6 +1384,13 @@ int EGLPNUM_TYPENAME_ILLlib_addrow (
 	if (B != 0)
 	{
 		B->nrows++;
+		/* ILLlib_addrows provides the norm of the new row when it keeps the
+		 * factorization; every other caller leaves the norms one short of the row
+		 * count they are loaded by */
+		if (B->rownorms && __EGlpNumArraySize (B->rownorms) < (size_t) B->nrows)
+		{
+			EGLPNUM_TYPENAME_EGlpNumFreeArray (B->rownorms);
+		}
 	}
 
 CLEANUP:
